@@ -4,8 +4,18 @@ From Coq Require Import ZifyBool ZifyNat ZifyN.
 Local Open Scope Z_scope.
 
 (* ------------------------------------------------------------------ election *)
-Definition wins_raw (id : N) (eff pp : Z) (pid : N) : bool :=
-  if negb (eff =? pp) then pp <? eff else (id <? pid)%N.
+Definition wins_raw (id : list N) (eff pp : Z) (pid : list N) : bool :=
+  if negb (eff =? pp) then pp <? eff else str_ltb id pid.
+
+(* Go string order is a strict total order *)
+Lemma str_ltb_antisym a : forall b, a <> b -> str_ltb b a = negb (str_ltb a b).
+Proof.
+  induction a as [|x a IH]; intros [|y b] Hne; cbn; try reflexivity; [congruence|].
+  destruct (N.ltb_spec x y), (N.ltb_spec y x); cbn; try reflexivity; try lia.
+  assert (x = y) by lia. subst y. apply IH. congruence.
+Qed.
+Lemma str_ltb_irrefl a : str_ltb a a = false.
+Proof. induction a as [|x a IH]; cbn; [reflexivity|]. rewrite N.ltb_irrefl. exact IH. Qed.
 
 Lemma wins_eq c n pid : wins c n pid = wins_raw (c_id c) (n_eff n) (n_pprio n) pid.
 Proof. reflexivity. Qed.
@@ -15,7 +25,7 @@ Lemma wins_raw_antisym ida idb ea eb :
 Proof.
   intros Hne. unfold wins_raw.
   destruct (Z.eqb_spec ea eb) as [E|E]; destruct (Z.eqb_spec eb ea) as [E'|E']; try lia; cbn [negb].
-  - destruct (N.ltb_spec ida idb), (N.ltb_spec idb ida); cbn; try reflexivity; lia.
+  - apply str_ltb_antisym; exact Hne.
   - destruct (Z.ltb_spec eb ea), (Z.ltb_spec ea eb); cbn; try reflexivity; lia.
 Qed.
 
@@ -52,7 +62,7 @@ Definition upd_core (v : variant) (pre : bool) (st mst : sst) (w : bool) : sst :
   else st.
 
 Definition hb_core (v : variant) (pre first : bool) (st mst : sst) (w : bool) : sst :=
-  if first || sst_eqb st Waiting || sst_eqb st ActiveSolo then
+  if first || sst_eqb st Waiting || sst_eqb st ActiveSolo || (fix_sa v && sst_eqb st StandbyAlone) then
     match st with
     | Waiting | ActiveSolo | StandbyAlone | Ready => if w then Active else Standby
     | _ => if fix_fc v then upd_core v pre st mst w else st
@@ -65,15 +75,15 @@ Lemma handle_hb_spec v c n m :
   fst (handle_hb v c n m) =
   mkNode (hb_core v (c_preempt c) (negb (n_pknown n)) (n_st n) (h_st m)
                   (wins_raw (c_id c) (n_eff n) (h_prio m) (h_id m)))
-         (n_eff n) (h_prio m) (Some (h_st m)) true (n_cnt n) (n_down n).
+         (n_eff n) (h_prio m) (Some (h_st m)) (nonempty (h_id m)) (n_cnt n) (n_down n).
 Proof.
-  destruct n as [st eff pp ps pk cnt dn], m as [mid mst mp mreq], v as [fh fi ff].
+  destruct n as [st eff pp ps pk cnt dn], m as [mid mst mp mreq], v as [fh fi ff fs fa].
   unfold handle_hb, hb_core, upd_core.
   destruct st, pk; cbn;
     unfold peer_discovered, elect, hb_update, transition_to, wins, wins_raw, set_pknown, set_peer, set_st;
-    cbn [n_st n_eff n_pprio n_pst n_pknown n_cnt n_down h_id h_st h_prio h_req fix_hb fix_if fix_fc];
-    set (W := if negb (eff =? mp) then mp <? eff else (c_id c <? mid)%N);
-    destruct (c_preempt c), fh, ff, mst, W; reflexivity.
+    cbn [n_st n_eff n_pprio n_pst n_pknown n_cnt n_down h_id h_st h_prio h_req fix_hb fix_if fix_fc fix_sa fix_ia];
+    set (W := if negb (eff =? mp) then mp <? eff else str_ltb (c_id c) mid);
+    destruct (c_preempt c), fh, ff, fs, mst, W; reflexivity.
 Qed.
 
 (* ------------------------------------------------------------------ exchanges on the finite abstraction *)
@@ -100,29 +110,36 @@ Fixpoint cxchgs (v : variant) (pa pb wa : bool) (ws : list who) (x : astate) : a
 Definition a_wins (cs : cfgs) (ab : node * node) : bool :=
   wins_raw (c_id (fst cs)) (n_eff (fst ab)) (n_eff (snd ab)) (c_id (snd cs)).
 
+Definition ids_ok (cs : cfgs) : Prop :=
+  c_id (fst cs) <> c_id (snd cs) /\ nonempty (c_id (fst cs)) = true /\ nonempty (c_id (snd cs)) = true.
+
 Lemma xchg_abs v cs w ab :
-  c_id (fst cs) <> c_id (snd cs) ->
+  ids_ok cs ->
   absn (xchg v cs w ab) = cxchg v (c_preempt (fst cs)) (c_preempt (snd cs)) (a_wins cs ab) w (absn ab)
   /\ n_eff (fst (xchg v cs w ab)) = n_eff (fst ab) /\ n_eff (snd (xchg v cs w ab)) = n_eff (snd ab).
 Proof.
-  intros Hne. destruct ab as [a b], cs as [ca cb]. unfold xchg, absn, cxchg, a_wins, snapshot.
+  intros (Hne & Hea & Heb). destruct ab as [a b], cs as [ca cb]. unfold xchg, absn, cxchg, a_wins, snapshot.
+  cbn [fst snd] in Hne, Hea, Heb.
   destruct w; rewrite !handle_hb_spec;
     cbn [fst snd n_st n_eff n_pprio n_pst n_pknown n_cnt n_down h_id h_st h_prio h_req];
+    rewrite ?Hea, ?Heb;
     rewrite (wins_raw_antisym (c_id ca) (c_id cb) (n_eff a) (n_eff b) Hne); auto.
 Qed.
 
 Lemma xchg_crossed_abs v cs ab :
-  c_id (fst cs) <> c_id (snd cs) ->
+  ids_ok cs ->
   absn (xchg_crossed v cs ab) = ccrossed v (c_preempt (fst cs)) (c_preempt (snd cs)) (a_wins cs ab) (absn ab).
 Proof.
-  intros Hne. destruct ab as [a b], cs as [ca cb]. unfold xchg_crossed, absn, ccrossed, a_wins, snapshot.
+  intros (Hne & Hea & Heb). destruct ab as [a b], cs as [ca cb]. unfold xchg_crossed, absn, ccrossed, a_wins, snapshot.
+  cbn [fst snd] in Hne, Hea, Heb.
   rewrite !handle_hb_spec;
     cbn [fst snd n_st n_eff n_pprio n_pst n_pknown n_cnt n_down h_id h_st h_prio h_req];
+    rewrite ?Hea, ?Heb;
     rewrite (wins_raw_antisym (c_id ca) (c_id cb) (n_eff a) (n_eff b) Hne); auto.
 Qed.
 
 Lemma xchgs_abs v cs ws : forall ab,
-  c_id (fst cs) <> c_id (snd cs) ->
+  ids_ok cs ->
   absn (xchgs v cs ws ab) = cxchgs v (c_preempt (fst cs)) (c_preempt (snd cs)) (a_wins cs ab) ws (absn ab).
 Proof.
   induction ws as [|w r IH]; intros ab Hne; cbn [xchgs cxchgs]; [reflexivity|].
@@ -141,9 +158,9 @@ Lemma core_dual_active v pa pb wa sa ka sb kb :
   a_one_active (cxchg v pa pb wa B (sa, ka, sb, kb)) = true /\
   a_one_active (ccrossed v pa pb wa (sa, ka, sb, kb)) = true.
 Proof.
-  destruct v as [fh fi ff]; cbn [fix_fc]; intros -> Ha Hb.
+  destruct v as [fh fi ff fs fa]; cbn [fix_fc]; intros -> Ha Hb.
   destruct sa; try discriminate Ha; destruct sb; try discriminate Hb;
-    destruct ka, kb, pa, pb, wa, fh; cbn; auto.
+    destruct ka, kb, pa, pb, wa, fh, fs; cbn; auto.
 Qed.
 
 (* without the repair: the pairs that are still dual-active after one exchange exist *)
@@ -157,9 +174,9 @@ Lemma core_dual_active_two v pa pb wa sa ka sb kb w1 w2 :
   is_active sa = true -> is_active sb = true ->
   a_one_active (cxchgs v pa pb wa [w1; w2] (sa, ka, sb, kb)) = true.
 Proof.
-  destruct v as [fh fi ff]; intros Ha Hb.
+  destruct v as [fh fi ff fs fa]; intros Ha Hb.
   destruct sa; try discriminate Ha; destruct sb; try discriminate Hb;
-    destruct ka, kb, pa, pb, wa, fh, ff, w1, w2; reflexivity.
+    destruct ka, kb, pa, pb, wa, fh, ff, fs, w1, w2; reflexivity.
 Qed.
 
 (* ------------------------------------------------------------------ no stable headless pair *)
@@ -195,31 +212,38 @@ Qed.
    (peerNodeID = ""): invariant [run_wf] below *)
 Definition okn (s : sst) (k : bool) : bool := settled s && negb (sst_eqb s StandbyAlone && k).
 
-Definition conv_check (fi ff pa pb wa : bool) (sa : sst) (ka : bool) (sb : sst) (kb : bool) (w1 w2 w3 : who) : bool :=
-  let v := mkVariant true fi ff in
+(* precondition on one node: with fix_sa any started node, without it STANDBY_ALONE must not know its peer *)
+Definition pre_ok (fs : bool) (s : sst) (k : bool) : bool := if fs then settled s else okn s k.
+
+Definition conv_check (fi ff fs fa pa pb wa : bool) (sa : sst) (ka : bool) (sb : sst) (kb : bool) (w1 w2 w3 : who) : bool :=
+  let v := mkVariant true fi ff fs fa in
   let r := cxchgs v pa pb wa [w1; w2; w3] (sa, ka, sb, kb) in
-  implb (okn sa ka && okn sb kb)
+  implb (pre_ok fs sa ka && pre_ok fs sb kb)
     (a_one_active r && astate_eqb (cxchg v pa pb wa A r) r && astate_eqb (cxchg v pa pb wa B r) r).
 Definition conv_all : bool :=
-  all_bool (fun fi => all_bool (fun ff => all_bool (fun pa => all_bool (fun pb => all_bool (fun wa =>
+  all_bool (fun fi => all_bool (fun ff => all_bool (fun fs => all_bool (fun fa =>
+  all_bool (fun pa => all_bool (fun pb => all_bool (fun wa =>
   all_settled (fun sa => all_bool (fun ka => all_settled (fun sb => all_bool (fun kb =>
   all_who (fun w1 => all_who (fun w2 => all_who (fun w3 =>
-    conv_check fi ff pa pb wa sa ka sb kb w1 w2 w3)))))))))))).
+    conv_check fi ff fs fa pa pb wa sa ka sb kb w1 w2 w3)))))))))))))).
 Lemma conv_all_true : conv_all = true.
 Proof. vm_compute. reflexivity. Qed.
+
+Lemma pre_ok_settled fs s k : pre_ok fs s k = true -> settled s = true.
+Proof. unfold pre_ok, okn. destruct fs; [auto|]. intros H; apply andb_prop in H; tauto. Qed.
 
 (* with the dual-standby repair: from ANY pair of started nodes, three fresh exchanges (any
    initiators) reach a pair with exactly one active node that further exchanges do not move *)
 Lemma core_converges v pa pb wa sa ka sb kb w1 w2 w3 :
-  fix_hb v = true -> okn sa ka = true -> okn sb kb = true ->
+  fix_hb v = true -> pre_ok (fix_sa v) sa ka = true -> pre_ok (fix_sa v) sb kb = true ->
   let r := cxchgs v pa pb wa [w1; w2; w3] (sa, ka, sb, kb) in
   a_one_active r = true /\ cxchg v pa pb wa A r = r /\ cxchg v pa pb wa B r = r.
 Proof.
-  destruct v as [fh fi ff]; cbn [fix_hb]; intros -> Ha0 Hb0.
-  assert (Ha : settled sa = true) by (unfold okn in Ha0; apply andb_prop in Ha0; tauto).
-  assert (Hb : settled sb = true) by (unfold okn in Hb0; apply andb_prop in Hb0; tauto).
+  destruct v as [fh fi ff fs fa]; cbn [fix_hb fix_sa]; intros -> Ha0 Hb0.
+  pose proof (pre_ok_settled _ _ _ Ha0) as Ha. pose proof (pre_ok_settled _ _ _ Hb0) as Hb.
   pose proof conv_all_true as H. unfold conv_all in H.
   apply all_bool_ok with (b := fi) in H. apply all_bool_ok with (b := ff) in H.
+  apply all_bool_ok with (b := fs) in H. apply all_bool_ok with (b := fa) in H.
   apply all_bool_ok with (b := pa) in H. apply all_bool_ok with (b := pb) in H.
   apply all_bool_ok with (b := wa) in H.
   apply all_settled_ok with (s := sa) in H; [|exact Ha]. apply all_bool_ok with (b := ka) in H.
@@ -233,13 +257,13 @@ Qed.
 
 (* a pair in contact whose states are not moved by fresh exchanges has exactly one active node *)
 Lemma core_fixpoint_has_active v pa pb wa sa sb :
-  fix_hb v = true -> okn sa true = true -> okn sb true = true ->
+  fix_hb v = true -> pre_ok (fix_sa v) sa true = true -> pre_ok (fix_sa v) sb true = true ->
   a_states (cxchg v pa pb wa A (sa, true, sb, true)) = (sa, sb) ->
   a_states (cxchg v pa pb wa B (sa, true, sb, true)) = (sa, sb) ->
   one_active sa sb = true.
 Proof.
-  destruct v as [fh fi ff]; cbn [fix_hb]; intros -> Ha Hb.
-  destruct sa; try discriminate Ha; destruct sb; try discriminate Hb;
+  destruct v as [fh fi ff fs fa]; cbn [fix_hb fix_sa]; intros -> Ha Hb.
+  destruct fs; destruct sa; try discriminate Ha; destruct sb; try discriminate Hb;
     destruct pa, pb, wa, ff; cbn; intros H1 H2; try reflexivity; try discriminate H1; try discriminate H2.
 Qed.
 
@@ -250,14 +274,14 @@ Lemma core_dual_standby_current_code wa :
 Proof. destruct wa; split; reflexivity. Qed.
 
 (* ------------------------------------------------------------------ lifting to nodes *)
-Definition n_ok (n : node) : bool := okn (n_st n) (n_pknown n).
+Definition n_ok (v : variant) (n : node) : bool := pre_ok (fix_sa v) (n_st n) (n_pknown n).
 Definition pair_one_active (ab : node * node) : bool := one_active (n_st (fst ab)) (n_st (snd ab)).
 
 Lemma a_one_active_absn ab : a_one_active (absn ab) = pair_one_active ab.
 Proof. reflexivity. Qed.
 
 Lemma dual_active_resolves v cs a b :
-  fix_fc v = true -> c_id (fst cs) <> c_id (snd cs) ->
+  fix_fc v = true -> ids_ok cs ->
   is_active (n_st a) = true -> is_active (n_st b) = true ->
   pair_one_active (xchg v cs A (a, b)) = true /\
   pair_one_active (xchg v cs B (a, b)) = true /\
@@ -270,7 +294,7 @@ Proof.
 Qed.
 
 Lemma dual_active_resolves_two v cs a b w1 w2 :
-  c_id (fst cs) <> c_id (snd cs) ->
+  ids_ok cs ->
   is_active (n_st a) = true -> is_active (n_st b) = true ->
   pair_one_active (xchgs v cs [w1; w2] (a, b)) = true.
 Proof.
@@ -279,7 +303,7 @@ Proof.
 Qed.
 
 Lemma converges v cs a b w1 w2 w3 :
-  fix_hb v = true -> c_id (fst cs) <> c_id (snd cs) -> n_ok a = true -> n_ok b = true ->
+  fix_hb v = true -> ids_ok cs -> n_ok v a = true -> n_ok v b = true ->
   let r := xchgs v cs [w1; w2; w3] (a, b) in
   pair_one_active r = true /\ absn (xchg v cs A r) = absn r /\ absn (xchg v cs B r) = absn r.
 Proof.
@@ -301,8 +325,8 @@ Proof.
 Qed.
 
 Lemma fixpoint_has_active v cs a b :
-  fix_hb v = true -> c_id (fst cs) <> c_id (snd cs) ->
-  n_ok a = true -> n_ok b = true -> n_pknown a = true -> n_pknown b = true ->
+  fix_hb v = true -> ids_ok cs ->
+  n_ok v a = true -> n_ok v b = true -> n_pknown a = true -> n_pknown b = true ->
   (forall w, n_st (fst (xchg v cs w (a, b))) = n_st a /\ n_st (snd (xchg v cs w (a, b))) = n_st b) ->
   pair_one_active (a, b) = true.
 Proof.
@@ -405,20 +429,8 @@ Qed.
 
 Lemma hb_facts v c n m :
   let n' := fst (handle_hb v c n m) in
-  same_track n n' /\ n_pknown n' = true.
+  same_track n n' /\ n_pknown n' = nonempty (h_id m).
 Proof. cbn zeta. rewrite handle_hb_spec. unfold same_track; cbn; auto. Qed.
-
-(* handleInterfaceEvent split into its three stages *)
-Definition track_update (v : variant) (n : node) (k : nat) (down : bool) : node :=
-  if fix_if v then
-    if Bool.eqb down (mem_nat k (n_down n)) then n
-    else if down then set_track n (n_cnt n + 1) (k :: n_down n)
-         else set_track n (n_cnt n - 1) (remove_nat k (n_down n))
-  else
-    if down then set_track n (n_cnt n + 1) (n_down n)
-    else if 0 <? n_cnt n then set_track n (n_cnt n - 1) (n_down n)
-         else n.
-Definition if_delta (c : cfg) (n : node) : Z := i32 (i32 (- i32 (c_dec c)) * i32 (n_cnt n)).
 
 Lemma handle_if_eq v c n k d :
   handle_if v c n k d =
@@ -466,8 +478,8 @@ Lemma hb_core_wf v pre k st mst w :
   let s' := hb_core v pre (negb k) st mst w in
   sst_eqb s' Ready = false /\ sst_eqb s' StandbyAlone = false.
 Proof.
-  destruct v as [fh fi ff]. destruct st, k; cbn; try discriminate; intros _;
-    destruct pre, fh, ff, mst, w; cbn; auto.
+  destruct v as [fh fi ff fs fa]. destruct st, k; cbn; try discriminate; intros _;
+    destruct pre, fh, ff, fs, mst, w; cbn; auto.
 Qed.
 
 Lemma step_wf v cs s e w :
@@ -506,10 +518,10 @@ Proof.
 Qed.
 
 Lemma run_started_ok v cs es w :
-  n_st (node_of w (run v cs (init_pair cs) es)) <> Init -> n_ok (node_of w (run v cs (init_pair cs) es)) = true.
+  n_st (node_of w (run v cs (init_pair cs) es)) <> Init -> n_ok v (node_of w (run v cs (init_pair cs) es)) = true.
 Proof.
-  pose proof (run_wf v cs es w) as H. unfold wf_node, n_ok, okn in *. intros Hi.
-  destruct (n_st _); cbn in *; try congruence; auto.
+  pose proof (run_wf v cs es w) as H. unfold wf_node, n_ok, pre_ok, okn in *. intros Hi.
+  destruct (fix_sa v), (n_st _); cbn in *; try congruence; auto.
 Qed.
 
 (* ------------------------------------------------------------------ interface tracking *)
@@ -812,7 +824,7 @@ Lemma no_self_promotion_run v cs es e w :
 Proof. intros s. apply promotion_justified. Qed.
 
 Lemma converges_run v cs es w1 w2 w3 :
-  fix_hb v = true -> c_id (fst cs) <> c_id (snd cs) ->
+  fix_hb v = true -> ids_ok cs ->
   let s := run v cs (init_pair cs) es in
   n_st (p_a s) <> Init -> n_st (p_b s) <> Init ->
   let r := xchgs v cs [w1; w2; w3] (p_a s, p_b s) in
